@@ -61,6 +61,23 @@ PROPS = {
     ),
 }
 
+def _conn_prop(fam, nontrivial, rule, quick_runs=4, thorough_runs=30):
+    return dict(tlc={"quick": [], "thorough": []}, dev=[], family=fam, drivers=["d1"],
+                passes={"quick": [("mix", quick_runs, None)], "thorough": [("mix", thorough_runs, None), ("delay", 1, 60)]},
+                nontrivial=nontrivial, rule=rule)
+
+PROPS.update({
+    "C03": _conn_prop("C03", r'"ev":"ReadRet".*"got":[1-9]', "scenarios: framing x length x chunking x header-name case x follower x read-size program (family C03); non-trivial = some body bytes were read"),
+    "C09": _conn_prop("C09", r'"ev":"RecvRet".*"m":1,', "scenarios: body framing x consumption prefix x finish x follower (family C09); non-trivial = the follower request was delivered"),
+    "C10": _conn_prop("C10", r'"ev":"CFrame".*"st":(400|417|505)|"ev":"CEof"', "scenarios: each malformed / unsupported class at every position of a 1..4 pipeline, neighbours answered fast or slow (family C10)"),
+    "C11": _conn_prop("C11", r'"ev":"RecvRet".*"m":1,', "scenarios: pipelines of 2..8 requests over body kinds x {collect-then-answer, serve, read-to-EOF-then-wait} (family C11); non-trivial = a second request of the pipeline was delivered"),
+    "C12": _conn_prop("C12", r'"ev":"CEof"', "scenarios: version x Connection header class at every pipeline position x trailing bytes x half-close (family C12)"),
+    "C13": _conn_prop("C13", r'"ev":"CSend".*\n?', "scenarios: corpus conversation x segmentation (every single split / bytewise / random multi-way) (family C13)", quick_runs=1, thorough_runs=3),
+    "C15": _conn_prop("C15", r'"ev":"C(Half|Close|Reset)"', "scenarios: corpus conversation x every cut offset x {half-close, close, reset}; response-side faults (family C15)", quick_runs=2, thorough_runs=10),
+    "C16": _conn_prop("C16", r'"ev":"CFrame".*"st":400', "scenarios: whitespace around header names, invalid Content-Length classes, each followed by a would-be smuggled request (family C16)"),
+    "C18": _conn_prop("C18", r'"ev":"Ask"', "scenarios: Expect present/absent x length x handler program x withholding client (family C18); non-trivial = the body was asked for"),
+})
+
 LEVEL = {p: "model_checking" for p in PROPS}
 
 ASSUMPTIONS = [
